@@ -7,6 +7,15 @@ from ir import short
 from terms import cu, show, simp, subterms, is_const, FALSE
 
 
+
+def _nan_canon(t):
+    """NaN constants compare unequal to themselves as Python floats; as *terms* two NaN literals are the same initial value (f64::NAN)"""
+    if isinstance(t, float) and t != t:
+        return "NaN"
+    if isinstance(t, tuple):
+        return tuple(_nan_canon(x) for x in t)
+    return t
+
 def subst_pre(t, mapping, lenmap=None):
     """replace ('pre', 'self.f') of PARAMETER fields by their constructor value, and len(pre(buffer)) by the buffer's
     constructor length. The pre-value of state fields and buffers is never substituted (that would hide an un-reset field)."""
@@ -78,7 +87,7 @@ def apply(F, S):
             if cl == "STATE":
                 if v == ("pre", "self." + fname) or _mentions_pre(v, "self." + fname):
                     S.bad("R2", "unreset", key, "%s does not re-initialise state field `%s` (constructor value %s): stale state survives reset()" % (rfn.label, fname, show(want)), loc(rfn.span), after_reset=show(v))
-                elif v != want:
+                elif _nan_canon(v) != _nan_canon(want):
                     S.bad("R2", "reset-value", key, "%s sets `%s` to %s but the constructor initialises it to %s" % (rfn.label, fname, show(v), show(want)), loc(rfn.span))
                 else:
                     S.ok("R2", key, cls=cl, new=show(want), reset=show(v))
